@@ -76,6 +76,7 @@ def gamma_of_tag(tag, kind):
 
 # ---------------------------------------------------------------- tracing subclasses (no source hooks)
 _TRACED = {}
+_REASSIGN_N = 0
 
 
 def traced_classes(kind):
@@ -178,6 +179,42 @@ def make_model(kind, st, traced=False):
     g = gamma_of_tag(st["gamma"], kind)
     if g is not None:
         kw["gamma"] = g
+    if st.get("ctor") == "reassign":
+        # a model that has already been USED with other parameters (including calls that raised inside the update and
+        # calls with per-call options), whose public attributes are then assigned the wanted values: anything the
+        # implementation remembered from the first life of the object is stale now
+        global _REASSIGN_N
+        _REASSIGN_N += 1
+        other = dict(kw)
+        # the first life alternates between a much smaller and a larger beta / tau than the wanted ones
+        other.update(beta=(kw["beta"] * 2.0 + 1.0) if _REASSIGN_N % 2 else kw["beta"] * 0.01,
+                     tau=(kw["tau"] + kw["beta"]) if _REASSIGN_N % 3 else 0.0,
+                     kappa=min(kw["kappa"] * 7.0, 1e-2), limit_sigma=not kw["limit_sigma"])
+        m = cls(**other)
+        R = RATING[kind]
+        b = other["beta"]
+        warm = [[R(6.0 * b, 2.0 * b), R(5.0 * b, 1.0 * b)], [R(4.0 * b, 3.0 * b)], [R(7.0 * b, 0.5 * b), R(1.0 * b, 2.5 * b)]]
+        for call in (lambda: m.predict_win(warm), lambda: m.predict_draw(warm), lambda: m.predict_rank(warm),
+                     lambda: m.predict_draw(warm[:2]), lambda: m.predict_win(warm[:2]),
+                     lambda: m.rate([[R(6.0 * b, 2.0 * b)], [R(5.0 * b, 1.0 * b)], [R(4.0 * b, 3.0 * b)]], ranks=[2, 3, 1]),
+                     lambda: m.rate([[R(1e9 * b, b)], [R(-1e9 * b, b)], [R(0.0, b)]], ranks=[3, 1, 2], tau=0.5 * b, limit_sigma=True),
+                     lambda: m.rate([[R(6.0 * b, 2.0 * b)], [R(5.0 * b, 1.0 * b)]], scores=[1, "x"], tau=3.0 * b, limit_sigma=False),
+                     lambda: m.rate([[R(6.0 * b, 2.0 * b)], [R(5.0 * b, 1.0 * b)]], tau=2.0 * b, limit_sigma=True)):
+            try:
+                call()
+            except Exception:  # noqa: BLE001
+                pass
+        for k, v in kw.items():
+            setattr(m, k, v)
+        return m
+    if st.get("ctor") == "subcls":
+        # the model's rating-class attribute points at a subclass of the rating class (users may swap it to attach
+        # behaviour); plain rating objects of the model must still be accepted
+        m = cls(**kw)
+        nm = [a for a in vars(m) if a.endswith("Rating") and isinstance(getattr(m, a), type)]
+        for a in nm:
+            setattr(m, a, type("Sub" + a, (getattr(m, a),), {}))
+        return m
     if st.get("ctor") == "setattr":
         # the same parameters reached by assigning the public attributes of a default-constructed model
         m = cls()
